@@ -14,7 +14,7 @@ import (
 
 func init() {
 	simrt.Register(&simrt.Scenario{
-		Prop: "C13", Name: "dead-peer", Count: tiered(1200, 60000),
+		Prop: "C13", Name: "dead-peer", Count: tiered(3000, 60000),
 		Run: c13Dead, MaxOps: 2 << 20, Horizon: 6 * time.Hour,
 		Doc: "transport goes totally silent at a tape-chosen instant with 0..N+3 messages queued at that moment (idle / sending / full window with a blocked Send); both endpoints must fail their calls within the bound",
 	})
